@@ -66,47 +66,8 @@ def run(ctx):
 
     R2 = "C03.R2"
     run.rule(R2, "a reservation re-checks the record it reserves (status of the freshly read output)", floor=1)
-    lk = ctx.fn(SEL + "lock_tx_context")
-    if lk:
-        fl = vf.get_flow(lk)
-        locks = cfg.find_calls(lk, c.WOB + "lock_output")
-        if not locks:
-            run.error("C03.R2: lock_output not called in lock_tx_context")
-        for b, t in locks:
-            coin = vf.strip_clones(lk, t["a"][1])
-            # guards: comparisons / eligible_to_spend calls over the coin's status that dominate the lock
-            edges_ok = set()
-            needed = {"Locked": False, "Spent": False}
-            for x in cfg.comparisons(lk):
-                if x.op not in ("Eq", "Ne"):
-                    continue
-                lo, ro = fl.of_operand(x.l), fl.of_operand(x.r)
-                for a, bb_ in ((x.l, ro), (x.r, lo)):
-                    pa = vf.producers(lk, a)
-                    base_ok = vf.has_field(pa, OD, "status") and vf.has_call(pa | fl.of_operand(a), c.WOB + "get")
-                    if not base_ok:
-                        continue
-                    for st in list(needed):
-                        if ("agg", OS, st) in bb_:
-                            ne = x.false_edges if x.op == "Eq" else x.true_edges
-                            if ne and cfg.must_pass(lk, ne, {b})[0]:
-                                needed[st] = True
-            el = [(eb, et) for eb, et in cfg.find_calls(lk, OD + "::eligible_to_spend")]
-            for eb, et in el:
-                g = cfg.call_guard(lk, eb)
-                if g.ok and cfg.must_pass(lk, g.ok, {b})[0] and vf.has_call(vf.origins(lk, et["a"][0]), c.WOB + "get"):
-                    needed = {k: True for k in needed}
-            held = all(needed.values())
-            run.instance(R2, {"fn": "lock_tx_context", "obligation": "lock_output(coin) only for a freshly read coin that is neither Locked nor Spent", "guards": needed}, held=held)
-            if not held:
-                run.finding(Finding(R2, lk.id, "inputs are locked without re-checking that the freshly read output is still unreserved", site=c.site_of(lk, b),
-                                    detail="selection checked eligibility when the context was built; the lock step reads the record again (batch.get) but does not look at its status: %s" % needed))
-            # the coin locked is the one read by batch.get for the context's input ids
-            o = vf.origins(lk, t["a"][1])
-            h = vf.has_call(o, c.WOB + "get") and vf.has_call(o, c.LW + "types::Context::get_inputs")
-            run.instance(R2, {"fn": "lock_tx_context", "obligation": "the locked coin is batch.get(id) for id in context.get_inputs()"}, held=h)
-            if not h:
-                run.finding(Finding(R2, lk.id, "locked coin is not the record read for the context's input ids", site=c.site_of(lk, b)))
+    from .shared import reservation_recheck
+    reservation_recheck(ctx, R2)
 
     R3 = "C03.R3"
     run.rule(R3, "a replayed protocol step is recognised before any effect (sibling cross-check)", floor=3)
@@ -124,6 +85,15 @@ def run(ctx):
         run.instance(R3, {"fn": pp.short(fid), "obligation": "an existing %s entry with this slate id => Err before any effect" % ty, "found": info}, held=held)
         if not held:
             run.finding(Finding(R3, fid, "no duplicate check (existing %s entry for this slate id) before the step's effects" % ty, site=f.loc()))
+    # a cancelled send is not reserved again: the private context survives cancel_tx, so the same slate could be
+    # locked a second time (second log entry for one slate id, the cancelled transaction comes back to life)
+    ftl = ctx.fn(OWNER + "tx_lock_outputs")
+    if ftl:
+        from .shared import replay_guard
+        held, info = replay_guard(ctx, R3, ftl, "TxSentCancelled")
+        run.instance(R3, {"fn": "owner::tx_lock_outputs", "obligation": "an existing TxSentCancelled entry with this slate id => Err before any effect", "found": info}, held=held)
+        if not held:
+            run.finding(Finding(R3, ftl.id, "a send that was cancelled can be reserved again with the same slate: a second log entry for one slate id (cancel by slate id then finds two entries and is refused)", site=ftl.loc()))
 
     R4 = "C03.R4"
     run.rule(R4, "selection excludes reserved outputs (eligible_to_spend truth table; shared with C01.R3)", floor=2)
